@@ -1019,7 +1019,8 @@ class System:
     @property
     def root_names(self) -> Collection[str]:
         """The top-level package/module names in this system."""
-        return {obj.name for obj in self.rootobjects}
+        # Ordered, so that what is derived from it does not depend on the hash seed.
+        return list(dict.fromkeys(obj.name for obj in self.rootobjects))
 
     def progress(self, section: str, i: int, n: Optional[int], msg: str) -> None:
         if n is None:
